@@ -216,3 +216,13 @@ Fixpoint schedule_of (first : bool) (cur : content) (rest : list content) (obs :
       let '(evs, c', r') := writes_until x cur rest in
       evs ++ (if first then Pull else WatchEvent) :: schedule_of false c' r' obs'
   end.
+
+(** ** availability of a multi-member store
+
+    The store is available as long as a majority of its [n] members is up ([quorum]);
+    it is NOT tied to any single member.  A client can use the store iff one of the
+    members it knows ([endpoints], member indices) is up. *)
+Definition quorum (n down : nat) : bool := Nat.ltb n (2 * (n - down)).
+Definition all_members (n : nat) : list nat := seq 0 n.
+Definition reachable (endpoints down : list nat) : bool :=
+  existsb (fun e => negb (existsb (Nat.eqb e) down)) endpoints.
